@@ -206,8 +206,8 @@ def impl_rx(hc, reads):
         if closed:
             obs.append({"closed": True})
             continue
-        crypto.receive_data(r)
         try:
+            crypto.receive_data(r)
             out = crypto.decrypt()
         except InvalidTag:
             obs.append({"err": "InvalidTag"})
@@ -221,7 +221,7 @@ def impl_rx(hc, reads):
     return obs
 
 
-def judge(ctx: Ctx, cipher, case, obs, replay_kind):
+def judge(ctx: Ctx, cipher, case, obs, replay_kind, rep_override=None):
     """The property, stated on the observed behaviour with the reference receiver."""
     stream, reads, payloads = case["stream"], case["reads"], case["payloads"]
     frames, fail_end, consumed = ref.receive(cipher, stream)
@@ -237,6 +237,8 @@ def judge(ctx: Ctx, cipher, case, obs, replay_kind):
         "stream": hx(stream),
         "reads": [len(r) for r in reads],
     }
+    if rep_override is not None:
+        rep = dict(rep_override, connection_payload_sizes=rep["payload_sizes"], connection_tamper=case["kind"])
     for r, o in zip(reads, obs):
         n += len(r)
         if failed:
@@ -266,7 +268,7 @@ def judge(ctx: Ctx, cipher, case, obs, replay_kind):
                 ctx.fail(
                     "C04:complete-frame-not-delivered",
                     f"after {n} bytes {sum(1 for e, _ in frames if e <= n)} authentic frames are complete but only "
-                    f"{len(delivered)} of {len(want)} payload bytes were handed over (payload sizes {rep['payload_sizes']})",
+                    f"{len(delivered)} of {len(want)} payload bytes were handed over (payload sizes {[len(p) for p in payloads]})",
                     rep,
                 )
             else:
@@ -318,6 +320,18 @@ def run_real_stream(ctx: Ctx, hc):
     key_in = ref.hkdf(SHARED, ref.SALT, ref.C2A)
     other = ref.hkdf(b"\x01" * 32, ref.SALT, ref.C2A)
     cipher = ref.Real(key_in)
+    # single reads far beyond 64 KiB (asyncio hands over up to 256 KiB per call): a large request body in full frames,
+    # thousands of tiny frames, and a big read arriving behind a pending partial frame
+    big = []
+    for sizes, cuts in ([[1024] * 70, []], [[1024] * 130 + [1], []], [[1] * 4000, []], [[1024] * 66, [117]], [[300] * 260, [65536]]):
+        ps = [payload(rng, n) for n in sizes]
+        _, s = tamper(rng, ref.Real, key_in, other, ps, "none")
+        big.append({"payloads": ps, "kind": "none", "stream": s, "reads": cuts_to_reads(s, cuts)})
+    for case in big:
+        judge(ctx, cipher, case, impl_rx(hc, case["reads"]), "real-rx")
+        st.case(["real-big", len(case["payloads"]), [len(r) for r in case["reads"]]], True)
+        st.hit("op", "real-crypto:big-read")
+        st.hit("outcome", "read-over-64KiB")
     for _ in range(ctx.n(150, 3000)):
         k = rng.choice([1, 2, 3, 5])
         ps = [payload(rng, rng.choice([1, 1, 2, 19, 300, 1023, 1024])) for _ in range(k)]
@@ -329,6 +343,95 @@ def run_real_stream(ctx: Ctx, hc):
         judge(ctx, cipher, case, obs, "real-rx")
         st.case(["real", [len(p) for p in ps], kind, [len(r) for r in reads], hx(s[:8])], True)
         st.hit("op", "real-crypto:" + kind)
+
+
+def run_interleaved(ctx: Ctx, hc, only=None):
+    """Several sessions alive at once in one process: each connection has its own HAPCrypto (created when its first
+    read arrives, i.e. often while another connection is in the middle of a frame), reads are interleaved across
+    connections. Oracle: every connection gets exactly what the reference receiver gives for ITS stream alone.
+    Mock-AEAD schedules are also compared with the model's pool (`Pool.run`)."""
+    from cryptography.exceptions import InvalidTag
+
+    rng = ctx.rng
+    st = ctx.stats
+    lines, impls = [], []
+    plans = []
+    if only is not None:
+        plans = [only]
+    else:
+        for it in range(ctx.n(70, 2000)):
+            plans.append({"mode": "mock" if it % 2 == 0 else "real", "nconn": rng.choice([2, 2, 3]), "seed": rng.randrange(1 << 30)})
+    for plan in plans:
+        import random as _random
+
+        r = _random.Random(plan["seed"])
+        mode, nconn = plan["mode"], plan["nconn"]
+        cls = ref.Mock if mode == "mock" else ref.Real
+        shared = [bytes([17 * (i + 1) + r.randrange(8)]) * 32 for i in range(nconn)]
+        keys = [ref.hkdf(sk, ref.SALT, ref.C2A) for sk in shared]
+        other = ref.hkdf(b"\x01" * 32, ref.SALT, ref.C2A)
+        conns = []
+        for i in range(nconn):
+            ps = [payload(r, r.choice([1, 2, 19, 40, 300, 1024])) for _ in range(r.choice([1, 2, 3, 5]))]
+            kind = r.choice(["none", "none", "none", "none", "flip", "dup", "wrongkey"])
+            _, s = tamper(r, cls, keys[i], other, ps, kind)
+            # cut so that reads end INSIDE frames most of the time
+            cuts = [r.randrange(1, max(2, len(s))) for _ in range(r.choice([1, 2, 3, 5]))]
+            conns.append({"payloads": ps, "kind": kind, "stream": s, "reads": cuts_to_reads(s, cuts)})
+        order = [i for i, c in enumerate(conns) for _ in c["reads"]]
+        r.shuffle(order)
+        pos = [0] * nconn
+        sched = []
+        for i in order:
+            sched.append((i, conns[i]["reads"][pos[i]]))
+            pos[i] += 1
+        rep = {"kind": "interleaved", "plan": plan}
+        patches = []
+        if mode == "mock":
+            pm = mock.patch.object(hc, "ChaCha20Poly1305", PyMock)
+            pm.start()
+            patches.append(pm)
+        try:
+            inst, closed = {}, set()
+            obs = [[] for _ in range(nconn)]
+            outs = []
+            for i, rd in sched:
+                if i in closed:
+                    obs[i].append({"closed": True})
+                    outs.append([i, ""])
+                    continue
+                if i not in inst:
+                    inst[i] = hc.HAPCrypto(shared[i])  # a new session starts while others may be mid-frame
+                try:
+                    inst[i].receive_data(rd)
+                    out = inst[i].decrypt()
+                    obs[i].append({"out": hx(out)})
+                    outs.append([i, hx(out)])
+                except InvalidTag:
+                    obs[i].append({"err": "InvalidTag"})
+                    outs.append([i, ""])
+                    closed.add(i)
+                except Exception as ex:  # noqa: BLE001
+                    obs[i].append({"err": type(ex).__name__})
+                    outs.append([i, ""])
+                    closed.add(i)
+        finally:
+            for pm in patches:
+                pm.stop()
+        for i in range(nconn):
+            judge(ctx, cls(keys[i]), conns[i], obs[i], "interleaved", rep_override=rep)
+        if mode == "mock":
+            lines.append({"layer": "frame", "op": "pool", "keys": [k[0] for k in keys], "sched": [[i, hx(rd)] for i, rd in sched]})
+            impls.append({"outs": outs, "closed": [i in closed for i in range(nconn)], "plan": plan})
+        st.case(["interleaved", plan["mode"], plan["nconn"], plan["seed"]], True)
+        st.hit("op", "interleaved:" + mode)
+        st.hit("outcome", "interleaved-some-closed" if closed else "interleaved-all-open")
+    if only is None:
+        model = run_model_parallel("C04", lines)
+        for m, i in zip(model, impls):
+            st.traces_validated += 1
+            if (m.get("outs"), m.get("closed")) != (i["outs"], i["closed"]):
+                ctx.disagree("pool", i["plan"], _short(m), _short({"outs": i["outs"], "closed": i["closed"]}))
 
 
 def run_protocol_level(ctx: Ctx, hc):
@@ -354,6 +457,8 @@ def run_protocol_level(ctx: Ctx, hc):
             for _ in range(nreq):
                 pad = rng.choice([0, 1, 7, 950, 980, 1000, 1100])
                 reqs.append(b"GET /x?p=" + b"a" * pad + b" HTTP/1.1\r\nHost: h\r\n\r\n")
+            if it == 0:  # a large request body (72 KB) arriving in ONE read
+                reqs = [b"PUT /big HTTP/1.1\r\nHost: h\r\nContent-Length: 72000\r\n\r\n" + b"b" * 72000]
             plain = b"".join(reqs)
             # cut the plaintext into frames, forcing 1-byte tail frames often
             ps, pos = [], 0
@@ -365,8 +470,12 @@ def run_protocol_level(ctx: Ctx, hc):
                 ps.append(plain[pos : pos + n])
                 pos += n
             kind = rng.choice(["none", "none", "none", "flip", "swap", "dup", "drop", "wrongkey", "wrongctr"])
+            if it == 0:
+                kind = "none"
             _, s = tamper(rng, ref.Real, key_in, other, ps, kind)
             reads = cuts_to_reads(s, [rng.randrange(1, max(2, len(s))) for _ in range(rng.choice([0, 1, 2, 4]))])
+            if it == 0:
+                reads = [s]
             driver = mock.MagicMock()
             driver.accessory.display_name = "acc"
             conns = {}
@@ -692,7 +801,9 @@ def run(ctx: Ctx):
         "AEAD, model vs HAPCrypto), many (17..513) frames in one read, random real-ChaCha streams vs the reference codec, "
         "HAPServerProtocol-level runs, the plaintext->secure upgrade boundary with leftover parser bytes, and re-keying "
         "(second pair-verify inside the session; frames of the new key from counter 0, of the superseded key, of the new "
-        "key with the old counter; mock runs compared with the model's `rekey`). "
+        "key with the old counter; mock runs compared with the model's `rekey`), single reads beyond 64 KiB, and several "
+        "sessions alive at once with reads interleaved across connections (solo-run oracle per connection; mock runs "
+        "compared with the model's `Pool.run`). "
         "Non-trivial = more than one frame or more than one read or a tamper op; distinct by sizes, tamper, chunking."
     )
     ctx.assumptions.append("host is little-endian (Struct('H') is native order): " + sys.byteorder)
@@ -701,6 +812,7 @@ def run(ctx: Ctx):
     run_protocol_level(ctx, hc)
     run_upgrade_boundary(ctx, hc)
     run_rekey(ctx, hc)
+    run_interleaved(ctx, hc)
 
 
 def search(ctx: Ctx):
@@ -718,6 +830,7 @@ def search(ctx: Ctx):
         run_protocol_level(ctx, hc)
         run_upgrade_boundary(ctx, hc)
         run_rekey(ctx, hc)
+        run_interleaved(ctx, hc)
     finally:
         ctx.tier = saved
         ctx.budget_scale = 1.0
@@ -725,6 +838,12 @@ def search(ctx: Ctx):
 
 def replay(ctx: Ctx, r):
     hc = _mods()
+    if r["kind"] == "interleaved":
+        run_interleaved(ctx, hc, only=r["plan"])
+        for f in ctx.failures:
+            print("FAILS:", f.signature, f.description)
+        print("verdict:", "property violated on this input" if ctx.failures else "holds on this input")
+        return 1 if ctx.failures else 0
     if r["kind"] in ("upgrade-boundary", "rekey"):
         (run_upgrade_boundary if r["kind"] == "upgrade-boundary" else run_rekey)(ctx, hc)
         for f in ctx.failures:
